@@ -9,6 +9,7 @@ import (
 	"os"
 	"path/filepath"
 	"sort"
+	"strconv"
 	"strings"
 	"time"
 
@@ -269,6 +270,26 @@ func (P *Program) nameClosures(pk *packages.Package) {
 						litName[fl.Pos()] = s.Names[i].Name
 					}
 				}
+			case *ast.CallExpr:
+				// a function literal registered under a string key: F("key", func...) is named F(key)
+				if len(s.Args) >= 2 {
+					if bl, ok := s.Args[0].(*ast.BasicLit); ok && bl.Kind == token.STRING {
+						fname := ""
+						switch f := s.Fun.(type) {
+						case *ast.Ident:
+							fname = f.Name
+						case *ast.SelectorExpr:
+							fname = f.Sel.Name
+						}
+						if key, err := strconv.Unquote(bl.Value); err == nil && fname != "" {
+							for _, a := range s.Args[1:] {
+								if fl, ok := a.(*ast.FuncLit); ok {
+									litName[fl.Pos()] = fname + "(" + key + ")"
+								}
+							}
+						}
+					}
+				}
 			}
 			return true
 		})
@@ -279,6 +300,10 @@ func (P *Program) nameClosures(pk *packages.Package) {
 		for _, af := range fn.AnonFuncs {
 			if n, ok := litName[af.Pos()]; ok {
 				P.closureNames[af] = P.specName(fn) + "/" + n
+				if fn.Name() == "init" || strings.HasPrefix(fn.Name(), "init#") {
+					// the ordinal of an init function is not a stable name
+					P.closureNames[af] = n
+				}
 			}
 			// the body of a range-over-func loop is a synthetic function: Outer/rangefuncK, K in source order
 			if af.Synthetic == "range-over-func yield" {
